@@ -160,6 +160,16 @@ def checks_off(chk, cfg):
     if any(l.kind != "return" for l in ls):
         chk.violation("C19.O", key + ":assert_eq_assume_ok", "with checks off Unit::assert_eq_assume_ok can panic", fn=f["pretty"], file=loc(f["span"]))
         ok = False
+    # conversions whose RESULT depends on the unit (which kind of Command / PositionDerivative a quantity or unit denotes) cannot be
+    # right once the unit is erased: they must not exist in a checks-off build (today they are cfg-gated); if one appears, a
+    # well-dimensioned program gets a different value than in the checking build (mm/s -> Velocity there, whatever arm wins here)
+    for tgt, src in (("Command", "Quantity"), ("PositionDerivative", "Unit")):
+        f = Q.find_try_from(prog, tgt, src)
+        chk.evaluated(1, nontrivial=(key, "unit-discriminating", tgt, src))
+        if f is not None:
+            chk.violation("C19.O", "%s:unit-discriminating-conversion:%s<-%s" % (key, tgt, src), "[%s] %s (%s) exists although units are compiled out: which %s a %s denotes is decided by its unit, so the result cannot equal "
+                          "the checking build's for every well-dimensioned input" % (cfg, f["pretty"], loc(f["span"]), tgt, src), fn=f["pretty"], file=loc(f["span"]))
+            ok = False
     # no caller of the 'assume false' family
     if not assume_false_callers(chk, prog, key):
         ok = False
@@ -241,6 +251,22 @@ def run(chk):
     run_rules_under(chk, "K4", rules)
     chk.configs.append("K4")
     checks_off(chk, "K4")
+    # the default-feature debug build (checking in) and release build (checking out) must accept the same moves: the motion
+    # profile's feasibility assertions may not be debug-only
+    import rules.C06 as C06
+    p6 = load_config("K6")
+    if "K6" not in chk.configs:
+        chk.configs.append("K6")
+    key6 = "E:C06.ctor@K6"
+    chk.obligation(key6, "MotionProfile::new asserts feasibility in the release profile too")
+    sub6 = report.Check("C06", chk.tier)
+    C06.check_constructor(sub6, p6, S.Sim(p6))
+    chk.evaluations += sub6.evaluations
+    for v in sub6.violations:
+        chk.violation("C19.E", "C06@K6:%s:%s" % (v["rule"], v["key"]), "default-feature release build deviates from the common specification (%s): %s" % (v["rule"], v["what"]), **v["detail"])
+    if not sub6.violations:
+        chk.discharge(key6)
+    C06.check_constructor(report.Check("C06", chk.tier), load_config("K1"), S.Sim(load_config("K1")))   # restore module state learnt from K1
     numeric_variants(chk, "K1")
     numeric_variants(chk, "K2")
     chk.configs.append("K2")
